@@ -62,7 +62,15 @@ fn case_t<T: Sc>(rng: &mut Rng, case: u64, out: &mut CaseOut) {
     // quantities in tiny units are not: the band, which is of the size of the curve, still has to be right)
     let (tiny, huge) = if T::IS_F64 { (1e-290, 1e290) } else { (1e-30, 1e30) };
     let cov_in_range = cov.d.iter().all(|v| *v == 0.0 || (v.abs() > tiny && v.abs() < huge)) && (0..cov.r).all(|i| cov.at(i, i) > tiny);
-    let sigma2 = sf.stats.reduced_chi2().w();
+    // sigma^2 of the oracle-covariance reference comes from the oracle's own residual where that is not
+    // dominated by rounding (independent of the library's reduced_chi2)
+    let sigma2 = match oracle_sigma2::<T>(&spec, &sf.alpha, &sf.c, sf.nu) {
+        Some((s2, _)) => {
+            out.count("sigma2_from_the_oracle_residual");
+            s2
+        }
+        None => sf.stats.reduced_chi2().w(),
+    };
     let oracle_inv = scaled.as_ref().map(|(d, g, _)| OracleInverse::new(d, g));
     let ps = p_grid();
     let mut prev: Option<Vec<f64>> = None;
